@@ -425,6 +425,9 @@ func (e *Endpoint) Write(p []byte) (int, error) {
 		w.Ev(e.owner, "rst", e.name, "injected")
 		e.resetBoth()
 	}
+	if tap := w.OnConnWrite; tap != nil {
+		tap(e, p)
+	}
 	n, err := e.wr.write(p, &e.wdl, e.owner, lat, net.ErrClosed)
 	if n > 0 {
 		w.Ev(e.owner, "write", e.name, fmt.Sprintf("%d %08x", n, fnv32(p[:n])))
